@@ -193,11 +193,52 @@ theorem concat_valid (a b : List Char) : concatModel a b = encode (a ++ b) := co
 theorem bit_length_eq (s : List Char) : bitLengthModel s = 8 * lengthModel s := by
   rw [bitLengthModel_eq]; rfl
 
+/-! ## regexp_is_match with per-row patterns and flags -/
+
+/-- **The per-batch regex cache is transparent**: the loop of `regexp_is_match` (compiled
+expressions cached in a map keyed by the complete pattern `(?flags)pattern`) returns, for every
+list of rows and every regex engine, exactly what matching each row on its own returns — row `i`
+is matched with `pattern_i` under `flags_i`; the first row that does not compile aborts the call. -/
+theorem regexp_cache_transparent {R : Type} (compile : List Char → Option R) (isMatch : R → List Char → Bool)
+    (rows : List RxRow) :
+    regexpIsMatchModel compile isMatch rows = rxSpecAll compile isMatch rows :=
+  regexpIsMatchModel_eq_spec compile isMatch rows
+
+/-- **Row independence**: the answer at position `i` is a function of row `i` alone (its value,
+pattern and flags) — no other row of the batch, earlier or later, influences it. -/
+theorem regexp_rows_independent {R : Type} (compile : List Char → Option R) (isMatch : R → List Char → Bool)
+    (rows : List RxRow) (out : List (Option Bool))
+    (h : regexpIsMatchModel compile isMatch rows = some out) :
+    out.length = rows.length ∧
+    ∀ i (h1 : i < rows.length) (h2 : i < out.length), rxRowSpec compile isMatch rows[i] = some out[i] := by
+  rw [regexp_cache_transparent] at h
+  exact rxSpec_rows_independent compile isMatch rows out h
+
+/-- **Order independence**: permuting the rows permutes the answers. -/
+theorem regexp_order_independent {R : Type} (compile : List Char → Option R) (isMatch : R → List Char → Bool)
+    (rows rows' : List RxRow) (out : List (Option Bool)) (hp : rows.Perm rows')
+    (h : regexpIsMatchModel compile isMatch rows = some out) :
+    ∃ out', regexpIsMatchModel compile isMatch rows' = some out' ∧ out.Perm out' := by
+  rw [regexp_cache_transparent] at h ⊢
+  exact rxSpec_perm compile isMatch rows rows' out hp h
+
+/-- the cache key separates a flagged pattern from the same pattern without flags (and, being the
+text that is compiled, two rows share an entry only when they compile the same expression) -/
+theorem regexp_cache_key_separates_flags (p f : List Char) :
+    completePattern p (some f) ≠ completePattern p none := completePattern_flag_ne p f
+
+/-- non-vacuity: a toy engine (compile = identity, match = "value starts with the expression") on
+the same pattern under two different flags -/
+example : regexpIsMatchModel (R := List Char) some (fun re v => re.isPrefixOf v)
+    [⟨some ['(', '?', 'i', ')', 'a'], some ['a'], some ['i']⟩, ⟨some ['(', '?', 'i', ')', 'a'], some ['a'], none⟩]
+    = some [some true, some false] := by decide
+
 /-- **source-shape pins**: the guard expressions of `Predicate::like` / `ilike`
 (`is_ascii && pattern.is_ascii()`, the order Eq → StartsWith → EndsWith → Contains → Regex, the
 slices tested), `contains_like_pattern` (memchr3 over `%`, `_`, `\`), the operands of
 `byte_substring`'s bounds (each wrapped in `check_char_boundary`, overflow-safe), the skipping of
-null slots, the saturation of `start` / `length` into the offset type and `nth_back(back - 1)` are
+null slots, the saturation of `start` / `length` into the offset type, `nth_back(back - 1)` and the
+regex cache of `regexp_is_match` / `regexp_match` (keyed by `format!("(?{flag}){pattern}")`) are
 re-read from the source on every run by regular expressions spanning the whole expression; an
 edit makes the item LOST (value 0) and this theorem — and those built on the values — fail. -/
 theorem source_shape_pins :
@@ -207,7 +248,8 @@ theorem source_shape_pins :
     ILIKE_TRIM_END = 1 ∧ ILIKE_GUARD_STARTSWITH = 1 ∧ ILIKE_TRIM_START = 1 ∧ ILIKE_GUARD_ENDSWITH = 1 ∧
     SUBSTR_POS_BASE = 0 ∧ SUBSTR_POS_CLAMP = 1 ∧ SUBSTR_NEG_BASE = 1 ∧ SUBSTR_END_CLAMP = 1 ∧
     SUBSTR_SAT_I32 = 32 ∧ SUBSTR_SAT_I64 = 64 ∧ SUBSTR_SAT_VIEW = 64 ∧ SUBSTR_NULL_SKIP = 1 ∧
-    SUBSTRC_NTH_BACK_ADJ = 1 ∧ BIT_LENGTH_FACTOR = 8 ∧ BIT_LENGTH_FACTOR_VIEW = 8 := by decide
+    SUBSTRC_NTH_BACK_ADJ = 1 ∧ BIT_LENGTH_FACTOR = 8 ∧ BIT_LENGTH_FACTOR_VIEW = 8 ∧
+    REGEXP_CACHE_KEY = 3 ∧ REGEXP_MATCH_CACHE_KEY = 1 := by decide
 
 theorem bit_length_view_eq (s : List Char) : bitLengthModelView s = 8 * lengthModel s := by
   simp [bitLengthModelView, lengthModel, ArrowModel.Generated.C20.BIT_LENGTH_FACTOR_VIEW, Nat.mul_comm]
